@@ -56,6 +56,18 @@ func c09Configs() map[string]map[string]string {
 		"opt.yml":      tf("  G: opt\n", "  missing: ./does-not-exist.yml\n", "t"),
 		"ok.yml":       tf("  G: ok\n", "", "t"),
 	}
+	m["case-differing-siblings"] = map[string]string{
+		"Taskfile.yml":     tf("", "  up: ./Inc\n  low: ./inc\n", "show"),
+		"Inc/Taskfile.yml": tf("  G: upper\n", "", "t"),
+		"inc/Taskfile.yml": tf("  G: lower\n  H: lower\n", "", "t"),
+	}
+	m["diamond-dirs-dynvar"] = map[string]string{
+		"Taskfile.yml": tf("", "  l:\n    taskfile: ./l.yml\n    dir: ./dl\n  r:\n    taskfile: ./r.yml\n    dir: ./dr\n", "show"),
+		"l.yml":        tf("  G: l\n", "  shared:\n    taskfile: ./s.yml\n    dir: ./sl\n", "t"),
+		"r.yml":        tf("  G: r\n", "  shared:\n    taskfile: ./s.yml\n    dir: ./sr\n", "t"),
+		"s.yml":        "version: '3'\nvars:\n  W: {sh: pwd}\n  H: s\ntasks:\n  leaf:\n    cmds:\n      - echo leaf W={{.W}}\n",
+		"dl/.keep":     "", "dr/.keep": "", "sl/.keep": "", "sr/.keep": "",
+	}
 	m["same-file-twice"] = map[string]string{
 		"Taskfile.yml": tf("", "  n1:\n    taskfile: ./inc.yml\n    vars: {G: first}\n  n2:\n    taskfile: ./inc.yml\n    vars: {G: second}\n    internal: true\n", "show"),
 		"inc.yml":      tf("  H: inc\n", "", "t", "u"),
@@ -163,7 +175,7 @@ func c09Units(tier string) []*Unit {
 		if tier == "thorough" {
 			bound, shards = 2, 16
 		}
-		us = append(us, &Unit{Name: name, Sc: sc, Bound: bound, Prune: false, Env: true, Check: c09Check(ref, &sync.Mutex{}), Weight: len(cfgs[name]), Shards: shards, Filter: minimalDeviationSets})
+		us = append(us, &Unit{Name: name, Sc: sc, Bound: bound, Prune: false, Env: true, Check: c09Check(ref, &sync.Mutex{}), Weight: len(cfgs[name]), Shards: shards, Filter: minimalDeviationSets, AllVisible: tier == "thorough" && name == "diamond-dirs-dynvar"})
 	}
 	return us
 }
